@@ -34,6 +34,7 @@ func propC12(w *World, r *Report) {
 	}
 	RunLosslessFor(w, r, "C12", newBoundsRun(w))
 	RunLosslessControls(r)
+	RunBBoxCorners(w, r)
 	RunExtremumInit(w, r, losslessFuncs(w, r, "C12"))
 	r.Floor("extremuminit", 3)
 	RunTimeInverse(w, r)
@@ -343,4 +344,195 @@ func RunArgminScan(w *World, r *Report, fns []*ssa.Function) {
 			}
 		}
 	}
+}
+
+// RunBBoxCorners: the bounding box of a glyph under a font matrix is the box
+// around the images of all FOUR corners of the untransformed box; with a
+// matrix that rotates or shears, two opposite corners are not enough.  In
+// (*glyf.Outlines).GlyphBBoxPDF the matrix must be applied to all four
+// combinations {LLx,URx} x {LLy,URy}.
+func RunBBoxCorners(w *World, r *Report) {
+	r.Rule("bboxcorners: in (*glyf.Outlines).GlyphBBoxPDF the font matrix is applied to all four corners of the glyph's box — the (x, y) argument pairs of the Apply calls, traced back through conversions and the corner table to the fields they come from, cover {LLx,URx} x {LLy,URy}")
+	fn := w.Func("(*glyf.Outlines).GlyphBBoxPDF")
+	if fn == nil {
+		r.Fatal("(*glyf.Outlines).GlyphBBoxPDF does not resolve")
+		return
+	}
+	// origins of a value: names of rectangle fields it can come from; values
+	// that pass through element i of a local table are tagged "i:name"
+	isRectField := func(n string) bool { return n == "LLx" || n == "LLy" || n == "URx" || n == "URy" }
+	var origins func(v ssa.Value, depth int) map[string]bool
+	var fieldAt func(addr ssa.Value, f int, depth int) map[string]bool
+	var fieldOf func(sv ssa.Value, f int, depth int) map[string]bool
+	baseOf := func(v ssa.Value) ssa.Value {
+		if sl, ok := v.(*ssa.Slice); ok {
+			return sl.X
+		}
+		return v
+	}
+	tag := func(idx ssa.Value, m map[string]bool) map[string]bool {
+		c, ok := bconstInt(idx)
+		if !ok {
+			return m
+		}
+		out := map[string]bool{}
+		for k := range m {
+			if strings.Contains(k, ":") {
+				out[k] = true
+			} else {
+				out[fmt.Sprintf("%d:%s", c, k)] = true
+			}
+		}
+		return out
+	}
+	merge := func(dst, src map[string]bool) {
+		for k := range src {
+			dst[k] = true
+		}
+	}
+	fieldOf = func(sv ssa.Value, f int, depth int) map[string]bool {
+		out := map[string]bool{}
+		if depth > 10 {
+			return out
+		}
+		switch x := sv.(type) {
+		case *ssa.UnOp:
+			if x.Op == token.MUL {
+				merge(out, fieldAt(x.X, f, depth+1))
+			}
+		case *ssa.Phi:
+			for _, e := range x.Edges {
+				merge(out, fieldOf(e, f, depth+1))
+			}
+		}
+		return out
+	}
+	fieldAt = func(addr ssa.Value, f int, depth int) map[string]bool {
+		out := map[string]bool{}
+		if depth > 10 {
+			return out
+		}
+		switch a := addr.(type) {
+		case *ssa.Alloc:
+			for _, b := range fn.Blocks {
+				for _, in := range b.Instrs {
+					st, ok := in.(*ssa.Store)
+					if !ok {
+						continue
+					}
+					if st.Addr == ssa.Value(a) {
+						merge(out, fieldOf(st.Val, f, depth+1))
+					}
+					if fa, ok := st.Addr.(*ssa.FieldAddr); ok && fa.X == ssa.Value(a) && fa.Field == f {
+						merge(out, origins(st.Val, depth+1))
+					}
+				}
+			}
+		case *ssa.IndexAddr:
+			base := baseOf(a.X)
+			for _, b := range fn.Blocks {
+				for _, in := range b.Instrs {
+					st, ok := in.(*ssa.Store)
+					if !ok {
+						continue
+					}
+					if ia, ok := st.Addr.(*ssa.IndexAddr); ok && baseOf(ia.X) == base {
+						merge(out, tag(ia.Index, fieldOf(st.Val, f, depth+1)))
+					}
+					if fa, ok := st.Addr.(*ssa.FieldAddr); ok && fa.Field == f {
+						if ia, ok := fa.X.(*ssa.IndexAddr); ok && baseOf(ia.X) == base {
+							merge(out, tag(ia.Index, origins(st.Val, depth+1)))
+						}
+					}
+				}
+			}
+		}
+		return out
+	}
+	origins = func(v ssa.Value, depth int) map[string]bool {
+		out := map[string]bool{}
+		if depth > 10 {
+			return out
+		}
+		switch x := v.(type) {
+		case *ssa.Convert:
+			merge(out, origins(x.X, depth+1))
+		case *ssa.ChangeType:
+			merge(out, origins(x.X, depth+1))
+		case *ssa.Phi:
+			for _, e := range x.Edges {
+				merge(out, origins(e, depth+1))
+			}
+		case *ssa.Field:
+			st := x.X.Type().Underlying().(*types.Struct)
+			if n := st.Field(x.Field).Name(); isRectField(n) {
+				out[n] = true
+			} else {
+				merge(out, fieldOf(x.X, x.Field, depth+1))
+			}
+		case *ssa.UnOp:
+			if x.Op != token.MUL {
+				break
+			}
+			if fa, ok := x.X.(*ssa.FieldAddr); ok {
+				if n := fieldName(fa); isRectField(n) {
+					out[n] = true
+				} else {
+					merge(out, fieldAt(fa.X, fa.Field, depth+1))
+				}
+			}
+		}
+		return out
+	}
+	combos := map[string]bool{}
+	calls := 0
+	var pos token.Pos
+	for _, b := range fn.Blocks {
+		for _, in := range b.Instrs {
+			c, ok := in.(*ssa.Call)
+			if !ok {
+				continue
+			}
+			cal := c.Call.StaticCallee()
+			if cal == nil || cal.Name() != "Apply" || len(c.Call.Args) != 3 {
+				continue
+			}
+			calls++
+			pos = c.Pos()
+			xs, ys := origins(c.Call.Args[1], 0), origins(c.Call.Args[2], 0)
+			// table form: "i:field" entries pair up by i; direct form: plain names
+			for x := range xs {
+				for y := range ys {
+					xi, xf := splitIdx(x)
+					yi, yf := splitIdx(y)
+					if xi == yi {
+						combos[xf+"/"+yf] = true
+					}
+				}
+			}
+		}
+	}
+	key := r.MkKey("bboxcorners", fnName(fn), "corners transformed")
+	var missing []string
+	for _, c := range []string{"LLx/LLy", "URx/LLy", "URx/URy", "LLx/URy"} {
+		if !combos[c] {
+			missing = append(missing, c)
+		}
+	}
+	switch {
+	case calls == 0:
+		r.Fail("bboxcorners", key, w.Pos(fn.Pos()), "no application of the font matrix found", nil)
+	case len(missing) > 0:
+		r.Fail("bboxcorners", key, w.Pos(pos), "the font matrix is not applied to the corner(s) "+strings.Join(missing, ", ")+" of the glyph's box: for a matrix that rotates or shears (an oblique font) the box around the transformed opposite corners does not contain the glyph", nil)
+	default:
+		r.OK("bboxcorners", key, w.Pos(pos), "all four corners are transformed")
+	}
+	r.Floor("bboxcorners", 1)
+}
+
+func splitIdx(s string) (string, string) {
+	if i := strings.Index(s, ":"); i >= 0 {
+		return s[:i], s[i+1:]
+	}
+	return "", s
 }
